@@ -3,6 +3,8 @@
 Enumerates signatures (<=3 parameters, every default mask) x call shapes (which parameters are
 given, positional/named split, named order) x argument values x call forms; every program is
 parsed and run on the real interpreter; oracle = Python-like binder.
+Further families live in c08_more.py (overriding flows with another signature, calls inside and/or groups, `global`
+declarations that only some instances reach / that follow a local use) and run in the same quick/thorough tiers.
 """
 from __future__ import annotations
 
@@ -253,18 +255,23 @@ PARAM_NAMES = ["p0", "uid", "name", "status", "loop_id", "priority", "arguments"
 
 
 def check_param_name(nm):
-    res = {"programs": 1, "steps": 0, "viol": [], "defaults_used": 0, "named": 1, "positional": 0}
-    for call, how in ((f'await callee({nm}="yes")', "named"), ('await callee "yes"', "positional")):
-        src = (f"flow callee ${nm}\n  send Echo(a=${nm})\n  match Go()\n\n"
-               f"flow main\n  {call}\n  send After()\n  match Never()\n")
+    res = {"programs": 0, "steps": 0, "viol": [], "defaults_used": 0, "named": 0, "positional": 0}
+    for call, how in ((f'await callee({nm}="yes")', "named"), ('await callee "yes"', "positional"),
+                      (f'$x = await callee({nm}="yes")', "named-assign"), ('$x = await callee "yes"', "positional-assign")):
+        assign = how.endswith("-assign")
+        src = (f"flow callee ${nm}\n  send Echo(a=${nm})\n  match Go()\n" + ('  return "rv"\n' if assign else "") + "\n"
+               f"flow main\n" + ('  $x = "unset"\n' if assign else "") + f"  {call}\n  send After(" + ("x=$x" if assign else "") + ")\n  match Never()\n")
         info = {"engine": "C08-name", "source": src, "param_name": nm}
         sig = f"binding:parameter-name-used-by-the-interpreter:{nm}"
+        res["programs"] += 1
+        res["named" if how.startswith("named") else "positional"] += 1
         try:
             st = v2x.init_state(src)
             v2x.step(st, v2x.resolve_event(st, ("start_main",)), [], v2x.UIDS.n)
             echo = [e.get("a") for e in st.outgoing_events if e["type"] == "Echo"]
             v2x.step(st, {"type": "Go"}, [], v2x.UIDS.n)
             after = any(e["type"] == "After" for e in st.outgoing_events)
+            got_x = [e.get("x", "<missing>") for e in st.outgoing_events if e["type"] == "After"]
             res["steps"] += 2
         except Exception as e:
             res["viol"].append((sig, f"`flow callee ${nm}` called `{call}`: the interpreter raised {type(e).__name__}: {str(e)[:100]}", info))
@@ -274,6 +281,9 @@ def check_param_name(nm):
             break
         if not after:
             res["viol"].append((sig, f"`flow callee ${nm}` called `{call}`: the caller was not resumed after the callee finished", info))
+            break
+        if assign and got_x != ["rv"]:
+            res["viol"].append((sig, f"`flow callee ${nm}` (ends with `return \"rv\"`) called `{call}`: the caller's $x is {got_x!r} afterwards, expected ['rv']", info))
             break
     return res
 
@@ -331,6 +341,14 @@ def _scenarios():
                f"flow main\n  global $g\n  $g = 1\n  {call}\n  send After(r=$r, g=$g)\n  match Never()\n")
         out.append((f"argument-expression-changes-after-the-call:{how}", src, ["E1"], ("Echo", "After"),
                     (lambda e: (e["type"], e.get("p"), e.get("r"), e.get("g"))), [("Echo", 1, None, None), ("After", None, 1, 2)]))
+    # (b2) same clause, other ways in which the argument expression of the call does not give an equal value when it is evaluated
+    #      again: a fresh value per evaluation, a value that is not equal to itself, a dict the callee changes in place
+    for how, pre, arg, body, seen in (("await-uid", "", "uid()", "  send Echo(p=type($v))\n", "str"), ("await-nan", "", 'float("nan")', "  send Echo(p=type($v))\n", "float"),
+                                      ("await-dict-changed-in-place", '  $d = {"k": 1}\n', "$d", '  $dummy = $v.update({"k": 2})\n  send Echo(p=$v["k"])\n', 2)):
+        src = (f"flow callee $v\n{body}  match E1()\n  return 1\n\n"
+               f'flow main\n{pre}  $r = "unset"\n  $r = await callee({arg})\n  send After(r=$r)\n  match Never()\n')
+        out.append((f"argument-expression-changes-after-the-call:{how}", src, ["E1"], ("Echo", "After"),
+                    (lambda e: (e["type"], e.get("p"), e.get("r"))), [("Echo", seen, None), ("After", None, 1)]))
     # (c) return member named like a parameter
     for sig, call, want in (("$x -> $x", "await callee 4", 4), ("$x -> $x", "await callee $x=3", 3), ("$x=7 -> $x", "await callee", 7), ("$x -> $y", "await callee $x=3", 3)):
         src = f"flow callee {sig}\n  send Echo(p=$x)\n\nflow main\n  {call}\n  send After()\n  match Never()\n"
@@ -430,6 +448,13 @@ def first_combo(combo):
     return all(v in (VALUES[0], VALUES[2], VALUES[4], VALUES[5]) for v in combo)
 
 
+def _more(tagged):
+    from vf.props import c08_more
+
+    kind, task = tagged
+    return kind, {"ovr": c08_more.check_override, "group": c08_more.check_group, "scope": c08_more.check_scope}[kind](task)
+
+
 def run(rep, tier):
     from vf import par
 
@@ -459,6 +484,31 @@ def run(rep, tier):
         rep.set("scenario_programs", r["programs"])
         for sig, what, info in r["viol"]:
             rep.violation(sig, what, info)
+    from vf.props import c08_more
+
+    ots, gts, sts = c08_more.ovr_tasks(tier), c08_more.group_tasks(tier), c08_more.scope_tasks(tier)
+    tagged = [("ovr", t) for t in ots] + [("group", t) for t in gts] + [("scope", t) for t in sts]
+    ovr_differs = scope_steps = scope_mixed = 0
+    for kind, r in par.pmap(_more, tagged, chunksize=max(1, len(tagged) // 300)):
+        agg["programs"] += r["programs"]
+        agg["steps"] += r["steps"]
+        if kind == "scope":
+            scope_steps += r["steps"]
+            scope_mixed += r["mixed"]
+            nontrivial += r["mixed"]
+        else:
+            for k in ("defaults_used", "named", "positional"):
+                agg[k] += r[k]
+            ovr_differs += r.get("differs", 0)
+            nontrivial += 1 if (r["defaults_used"] or r["named"] or r["positional"]) else 0
+        for sig, what, info in r["viol"]:
+            rep.violation(sig, what, info)
+    rep.set("group_member_programs", len(gts))
+    rep.set("override_programs", len(ots))
+    rep.set("override_programs_with_a_different_signature", ovr_differs)
+    rep.set("scope_cases", len(sts))
+    rep.set("scope_interpreter_steps", scope_steps)
+    rep.set("scope_cases_with_declared_and_local_readers", scope_mixed)
     rep.set("parameter_names_checked", len(PARAM_NAMES))
     rep.set("evaluations", agg["programs"])
     rep.set("interpreter_steps", agg["steps"])
@@ -467,13 +517,28 @@ def run(rep, tier):
     rep.set("positional_arguments_bound", agg["positional"])
     rep.set("distinct_nontrivial", nontrivial)
     rep.set("rule", "signatures (<=2 quick / <=3 thorough params, every default mask) x call shapes (given subset, positional prefix, named order) x values "
-                    f"{[lit(v) for v in VALUES]} (full product for <=2 arguments, one-varying for 3) x forms {FORMS}; each program is distinct; non-trivial = binds >=1 argument or default")
+                    f"{[lit(v) for v in VALUES]} (full product for <=2 arguments, one-varying for 3) x forms {FORMS}; each program is distinct; non-trivial = binds >=1 argument or default. "
+                    f"Override family: {len(c08_more.signatures())} override signatures (1-2 parameters of {list(c08_more.NAMES)}, either order, every default mask) x overridden signatures "
+                    f"(quick: uniform default masks, thorough: all) x placements {list(c08_more.PLACEMENTS)} x strict call shapes of the override signature x forms {list(c08_more.OVR_FORMS)} "
+                    "(quick: 4 fixed placement/form pairs per shape, thorough: the product). Group family: <=2 parameters x masks x strict shapes x "
+                    f"{list(c08_more.GROUP_FORMS)}. Scope family (case = program + event order): `global $x` slots of the worker {list(c08_more.SLOT_KINDS)}^3 (quick: at most one slot filled) x workers taking the "
+                    f"conditional declaration x caller {list(c08_more.MAIN_VARIANTS)} x helper {list(c08_more.HELPERS)} x event orders (quick 2, thorough all 6 interleavings), a Tick after every event; "
+                    "non-trivial there = an instance that has declared the global and one that has not both read $x")
     rep.set("exhaustive", True)
-    rep.assumptions += ["calls that pass surplus arguments are outside the statement (C10 has them as fault kinds); a parameter omitted without declared default is only required not to take another parameter's value",
+    rep.assumptions += ["group members that only serve as the other member of an or-group run in their own interaction loop (their `send` would compete with the callee's)",
+                        "what `$x = await a or b` assigns and what a flow that ends without `return` hands to `$x = await flow` are not covered by the statement (it speaks of `$x = await flow` and of the value given to `return`)",
+                        "override / scope families: an overriding flow is bound by its own declaration; a variable is global for an instance from the moment that instance executes `global $x`",
+                        "calls that pass surplus arguments are outside the statement (C10 has them as fault kinds); a parameter omitted without declared default is only required not to take another parameter's value",
                         "`$self`, `$system` and `$context` are documented / explicitly rejected special names and are not used as parameter names",
                         "callee echoes its parameters in an event; sibling runs in its own interaction loop so that its `send` does not compete"]
     rep.sample({"program": program(*ts[len(ts) // 2])})
     rep.sample({"call": call_text(ts[-1][2], ts[-1][3]), "signature": signature_text(ts[-1][0], ts[-1][1]), "form": ts[-1][4]})
+    o = ots[len(ots) // 2]
+    osrc, oextra = c08_more.ovr_sources(*o)
+    rep.sample({"family": "override", "program": osrc, "second_source": list(oextra)})
+    sc = sts[len(sts) // 2]
+    rep.sample({"family": "scope", "program": c08_more.scope_program(*sc[:4]), "events": [list(e) for e in sc[4]],
+                "expected_per_step": [[list(ev), [list(x) for x in out]] for ev, out in c08_more.scope_model(*sc)[0]]})
 
 
 def replay(rp):
@@ -499,6 +564,9 @@ def replay(rp):
             print(sig, ":", what)
         print(rp.get("what"))
         return 0
+    if rp.get("engine") in ("C08-ovr", "C08-scope", "C08-group"):
+        from vf.props import c08_more
+        return c08_more.replay(rp)
     k, mask, shape, vals, form, ret = rp["task"]
     r = check((k, tuple(mask), (tuple(shape[0]), tuple(shape[1])) + tuple(shape[2:]), vals, form, ret))
     print(rp["source"])
